@@ -8,3 +8,12 @@ import contracts.c01_match as M
 P = "C03"
 unit(P, target=M.MOD + "ofp_match._wire_wildcards/_unwire_wildcards (flow-mod wire form)",
      name="flow_mod_match_survives_the_wire")(M.ofp_match_in_flow_mod)
+
+# ... and with the priority, command, timeouts and flags the controller sent (added 2026-09-25 after seeded change C03_9 decoded the
+# priority as a signed number: entries of priority >= 0x8000 then ranked below everything else in the switch's table).  The C01
+# unit that round-trips a flow-mod without actions - every scalar field free in its wire range - is an obligation of C03 too.
+import contracts.c01_containers as _C   # noqa
+from pyvc.api import UNITS as _UNITS
+for _u in list(_UNITS.get("C01", [])):
+  if _u.name == "ofp_flow_mod_0":
+    _w = unit(P, target=_u.target, name="flow_mod_priority_and_scalars_survive_the_wire")(_u.fn)
